@@ -11,6 +11,7 @@ namespace sim
 
 std::vector<std::string> keys_for(std::initializer_list<const char*> grammars, bool with_pnode = true, bool with_xnode = false);
 std::vector<std::string> regex_keys();
+std::vector<std::string> random_grammar_keys();
 
 struct OpShape
 {
